@@ -64,6 +64,8 @@ func caseDirName(i int, raw json.RawMessage) string {
 		return "taxes [" + n + "]"
 	case 4:
 		return "books{" + n + "}"
+	case 5:
+		return "R&D 2024+25 @home=" + n
 	}
 	return "c" + n
 }
